@@ -400,7 +400,10 @@ class K3State:
         return collapse_ws(args[0], I)
 
     def chain(self, I, args, kwargs, node):
-        raise Unsupported('__chain')
+        """itertools.chain(*mappings): only ever used as `name in __chain(...)`; membership is an
+        uninterpreted function of the key and each chained value"""
+        c = VChain([to_any(a) for a in args])
+        return c
 
     def loads(self, I, args, kwargs, node):
         """pickle.loads of the constant the compiler embedded for a deferred ExpressionError:
@@ -583,6 +586,17 @@ def collapse_ws(v, I=None):
                     I.assume(z3.Contains(f(t), z3.StringVal(keep[0])))
                     break
     return VStr(f(t))
+
+
+class VChain(V):
+    kind = 'chain'
+
+    def __init__(self, parts):
+        self.parts = parts
+
+    def contains(self, key):
+        f = z3.Function('chain_contains', z3.StringSort(), Val, z3.BoolSort())
+        return z3.Or([f(models.strterm(key), p.t) for p in self.parts] + [z3.BoolVal(False)])
 
 
 class VSeg(V):
@@ -781,6 +795,10 @@ def k3_prims():
             return VBool(False)
         classes = [getattr(builtins, _c(x)) for x in a[1:]]
         return VBool(models.sym_exc_isinstance(xs[-1], classes))
+
+    def loop_failed(I, a, k, n):
+        """an abstracted loop of the emitted code raised"""
+        return VBool(bool(I.ghost.get('loop_failed')))
 
     def repeat_kept(I, a, k, n):
         """repeat_kept('i'): every child executed so far left the repeat dictionary's entry for
@@ -1065,7 +1083,7 @@ def k3_prims():
              scope_frame, template_pos, template_rpos, token_now, ext_count, ext_token, ext_last, ext_raised, ext_callee, ext_result, ext_arg, ext_out, ext_i18n, is_stream,
              is_rcontext, is_scope_copy, scope_arg_visible, attr_of, module_function, globals_visible,
              in_local, translate_arg, translate_result, normalize, i18n0,
-             holes_here, repeat_failed, repeat_kept, repeat_restored, i18n_now, i18n_at, global_now, handler_calls, handler_configured,
+             holes_here, repeat_failed, repeat_kept, repeat_restored, loop_failed, i18n_now, i18n_at, global_now, handler_calls, handler_configured,
              translate_calls, quote_calls, errorinfo_of, token_at_eval, token_pos)}
 
 
